@@ -384,6 +384,7 @@ Section Expand.
                      (n : nat) (mac : macro) (p : Z)
     : pstate * list tok * list tok * list tok * Z :=
     let b := skip_space buf in
+    let p_prev := p in
     let p := match b with t :: _ => pos t | [] => p end in
     match code with
     | AStar =>
@@ -399,13 +400,14 @@ Section Expand.
               let '(st', a, rest) := arg_buffer T st b p s_rbrack in
               (st', a, a, rest, p)
             else
+              (* the next token need not belong to the call *)
               (st, match nth_error (m_defaults mac) n with
-                   | Some d => map (fun t => set_pos_fix t p) d
-                   | None => [] end, [], b, p)
+                   | Some d => map (fun t => set_pos_fix t p_prev) d
+                   | None => [] end, [], b, p_prev)
         | [] =>
             (st, match nth_error (m_defaults mac) n with
-                 | Some d => map (fun t => set_pos_fix t p) d
-                 | None => [] end, [], b, p)
+                 | Some d => map (fun t => set_pos_fix t p_prev) d
+                 | None => [] end, [], b, p_prev)
         end
     | AMand =>
         match b with
